@@ -62,6 +62,12 @@ def shapes():
     S['missing'] = lambda f, l: [[f.missing([list(b'a')])]]
     S['missing-path'] = lambda f, l: [[f.missing([list(b'a'), list(b'b')])]]
     N = lambda f, l, t, op: f.cmp([list(t)], op, f.h.num(fnn(f.ex, l)))
+    P = lambda n: [list(x) for x in (b'a', b'b', b'c', b'd')[:n]]
+    S['deep-has3'] = lambda f, l: [[f.has(P(3))]]
+    S['deep-missing3'] = lambda f, l: [[f.missing(P(3))]]
+    S['deep-cmp3'] = lambda f, l: [[f.cmp(P(3), f.ex.pick(6), f.h.num(fnn(f.ex, l)))]]
+    S['deep-has4'] = lambda f, l: [[f.has(P(4))]]
+    S['deep-cmp4'] = lambda f, l: [[f.cmp(P(4), [0, 2, 5][f.ex.pick(3)], f.h.num(fnn(f.ex, l)))]]
     S['and'] = lambda f, l: [[f.has([list(b'a')]), N(f, l, b'b', 2)]]
     S['or'] = lambda f, l: [[f.missing([list(b'a')])], [N(f, l, b'b', 0)]]
     S['and-or'] = lambda f, l: [[f.has([list(b'a')]), f.has([list(b'b')])], [N(f, l, b'a', 4)]]
@@ -75,6 +81,8 @@ _S = {}
 
 def templates(ctx):
     T = [{'name': n, 'mode': 'dict', 'shape': n} for n in shapes()]
+    # paths of 3 and 4 segments through nested dicts (each level absent / not a dict / Null / a dict)
+    for n in ('deep-has3', 'deep-missing3', 'deep-cmp3', 'deep-has4', 'deep-cmp4'): T.append({'name': n, 'mode': 'deep', 'shape': n})
     T.append({'name': 'grid', 'mode': 'grid', 'shape': 'cmp4'})
     T.append({'name': 'grid-has', 'mode': 'grid', 'shape': 'has'})
     T += wildcard_templates()
@@ -135,6 +143,27 @@ def path(ex, t):
     ands = _S[t['shape']](f, l)
     tree = f.or_([f.and_(a) for a in ands]); flt = f.filter(tree)
     st['tree'] = tree
+    if t['mode'] == 'deep':
+        depth = 3 if t['shape'].endswith('3') else 4
+        names = (b'a', b'b', b'c', b'd')
+        def level(i):
+            # the value of tag names[i]
+            if i == depth - 1:
+                k = ex.pick(5)
+                return [None, h.null(), h.marker(), None, None][k] if k < 3 else (h.num(fnn(ex, l)) if k == 3 else h.str_([l.byte([(0x61, 0x7a)])]))
+            k = ex.pick(5)
+            if k == 0: return None
+            if k == 1: return h.null()
+            if k == 2: return h.marker()
+            if k == 3: return h.list_([h.num(1.0)])
+            inner = level(i + 1)
+            return h.dict_([(names[i + 1], inner)] if inner is not None else [])
+        top = level(0)
+        rec = h.dict_payload([(b'a', top)] if top is not None else []); st['rec'] = rec
+        b = prog.find_method(rec.ty, 'Filtered', 'filter')
+        st['impl'] = C12.B(ex, ex.call_body(b, [Ptr(Cell(rec)), Ptr(Cell(flt))]))
+        st['spec'] = Sem(ex).or_(tree, rec)
+        return st
     if t['mode'] == 'dict':
         pairs = []
         uses_b = t['shape'] in ('and', 'or', 'and-or', 'or-and', 'parens')
